@@ -29,9 +29,19 @@ pub enum Pos {
     PreambleWindow,
     /// complete preamble + data, accepted by the application and not read
     AcceptedUnread,
+    /// first byte of the type / signal, then RESET_STREAM: a peer may abandon a stream inside its header (RFC 9114 6.2)
+    ResetTypeHalf,
+    /// type and half of the session id, then RESET_STREAM
+    ResetSidHalf,
+    /// a stream of a reserved (GREASE) type - uni: stream type 0x21 and three bytes, bidi: one complete GREASE frame - left open
+    GreaseOpen,
+    /// uni: unknown stream type 0x3f and three bytes, left open; bidi: one complete unknown frame, left open
+    UnknownOpen,
 }
 
 pub const ALL_POS: [Pos; 7] = [Pos::NoByte, Pos::TypeHalf, Pos::TypeOnly, Pos::SidHalf, Pos::Preamble, Pos::PreambleWindow, Pos::AcceptedUnread];
+/// the additional ways of abandoning / parking a stream (kept apart so that the grids over ALL_POS stay what they were)
+pub const EXTRA_POS: [Pos; 4] = [Pos::ResetTypeHalf, Pos::ResetSidHalf, Pos::GreaseOpen, Pos::UnknownOpen];
 
 impl Pos {
     pub fn incomplete(self) -> bool {
@@ -46,10 +56,14 @@ impl Pos {
             Pos::Preamble => "preamble",
             Pos::PreambleWindow => "preamble_window",
             Pos::AcceptedUnread => "accepted_unread",
+            Pos::ResetTypeHalf => "reset_type_half",
+            Pos::ResetSidHalf => "reset_sid_half",
+            Pos::GreaseOpen => "grease_open",
+            Pos::UnknownOpen => "unknown_open",
         }
     }
     fn parse(s: &str) -> Pos {
-        ALL_POS.into_iter().find(|p| p.name() == s).unwrap()
+        ALL_POS.into_iter().chain(EXTRA_POS).find(|p| p.name() == s).unwrap()
     }
 }
 
@@ -93,6 +107,22 @@ fn stall_bytes(bidi: bool, pos: Pos, sid: u64) -> Vec<u8> {
         Pos::TypeOnly => t,
         Pos::SidHalf => [&t[..], &s[..1]].concat(),
         Pos::Preamble => [&t[..], &s[..]].concat(),
+        Pos::ResetTypeHalf => t[..1].to_vec(),
+        Pos::ResetSidHalf => [&t[..], &s[..1]].concat(),
+        Pos::GreaseOpen => {
+            if bidi {
+                rc::frame_encode(0x21 + 0x1f * 2, &[1, 2, 3])
+            } else {
+                [&rc::varint_encode(0x21)[..], &[1, 2, 3]].concat()
+            }
+        }
+        Pos::UnknownOpen => {
+            if bidi {
+                rc::frame_encode(0x3f, &[1, 2, 3])
+            } else {
+                [&rc::varint_encode(0x3f)[..], &[1, 2, 3]].concat()
+            }
+        }
         Pos::PreambleWindow | Pos::AcceptedUnread => {
             let mut v = [&t[..], &s[..]].concat();
             v.extend(std::iter::repeat(0x77).take(1024 - v.len()));
@@ -238,7 +268,12 @@ pub async fn run(sc: Sc) -> Result<(String, Vec<&'static str>), String> {
             // more than any per-stream window the library would choose: the write blocks when the window is full
             b.extend(std::iter::repeat(0x77).take(3_000_000));
         }
-        if !b.is_empty() {
+        if matches!(pos, Pos::ResetTypeHalf | Pos::ResetSidHalf) {
+            s.write_all(&b).await.map_err(|e| format!("{e:?}"))?;
+            settle_ms(20).await;
+            let _ = s.reset(quinn::VarInt::from_u32(0x10c));
+            raw.hold(s);
+        } else if !b.is_empty() {
             // never block the harness on flow control: a window of data is written from a detached task
             let t = tokio::spawn(async move {
                 let _ = s.write_all(&b).await;
@@ -398,6 +433,16 @@ pub fn scenarios(tier: Tier) -> Vec<Sc> {
                 }
             }
         }
+        // streams abandoned inside their header with RESET_STREAM, and streams of reserved / unknown type left open
+        for pos in EXTRA_POS {
+            for bidi in [false, true] {
+                for k in if thorough { vec![1usize, 2, 5] } else { vec![1usize, 3] } {
+                    out.push(Sc { role_server: role, stalls: vec![(bidi, pos); k], order: 0, app_drops: false, defaults: false });
+                    out.push(Sc { role_server: role, stalls: vec![(bidi, pos); k], order: 0, app_drops: true, defaults: false });
+                }
+            }
+            out.push(Sc { role_server: role, stalls: vec![(false, pos), (true, pos), (false, Pos::TypeHalf)], order: 2, app_drops: false, defaults: false });
+        }
         // the library's own transport parameters (default builder paths): streams whose whole window is unread
         for k in if thorough { vec![1usize, 7, 8, 9, 12, 20] } else { vec![9usize] } {
             for pos in [Pos::AcceptedUnread, Pos::PreambleWindow] {
@@ -450,7 +495,7 @@ pub fn run_check(args: &Args) -> i32 {
     let rep = Report::new(
         args,
         "fault_enumeration",
-        "fault = k in 1..5(6) and k in {17, 40} (thorough {8, 16, 17, 32, 64, 90}; same kind and alternating kinds) stalled peer-opened streams of kind uni/bidi at one of 7 stall positions (no byte; half type; type only; half session id; complete preamble then silence; preamble + one flow-control window unread; accepted by the application and not read) x opening order (stalled first / healthy-unread streams first / healthy streams in between) x role, plus 1..20 streams whose whole per-stream window (the library's default transport parameters, default builder paths) is unread, plus mixed kinds and positions; after the faults the peer opens one healthy uni and one healthy bidi stream, sends a datagram and finally a clean close capsule while the application keeps accepting (variant: instead of the peer's capsule the application drops every handle and the peer must see the connection closed); horizon 10 s virtual with keep-alive. All scenarios distinct and non-trivial (>= 1 stalled stream)",
+        "fault = k in 1..5(6) and k in {17, 40} (thorough {8, 16, 17, 32, 64, 90}; same kind and alternating kinds) stalled peer-opened streams of kind uni/bidi at one of 7 stall positions (no byte; half type; type only; half session id; complete preamble then silence; preamble + one flow-control window unread; accepted by the application and not read; abandoned with RESET_STREAM inside the type / inside the session id; reserved or unknown stream type or frame, left open) x opening order (stalled first / healthy-unread streams first / healthy streams in between) x role, plus 1..20 streams whose whole per-stream window (the library's default transport parameters, default builder paths) is unread, plus mixed kinds and positions; after the faults the peer opens one healthy uni and one healthy bidi stream, sends a datagram and finally a clean close capsule while the application keeps accepting (variant: instead of the peer's capsule the application drops every handle and the peer must see the connection closed); horizon 10 s virtual with keep-alive. All scenarios distinct and non-trivial (>= 1 stalled stream)",
     );
     rep.assume("quiescence at the virtual horizon means 'never': nothing is in flight and only keep-alives remain");
     let scs = scenarios(args.tier);
